@@ -21,16 +21,18 @@
    under the producer's label stages the producer's accounts, resources and totals, and its boxes up
    to the key‖value ambiguity of C15 (recorded finding; c16_kv_boundary_shift_accepted) -- "except
    through a hash collision" being the explicit premises [label_binds] .. [leaf_RK].
-   restore (write world) = world: [C16_restore_flat_file_partial] proves it for EVERY well-formed world and
-   the unchunked file (one balances section, one complete record per account); that cutting the stream
-   into chunks and splitting accounts over records with ExpectingMoreEntries ([write_file]) does not
-   change the result is NOT proved -- it is compared with the real writer + accessor on every generated
-   file (the model's writer must reproduce the real chunk boundaries and flags) and shown on the
-   example [C16_ex_honest_restores]. *)
+   restore (write world) = world: [C16_restore_write_file] -- for EVERY well-formed world and EVERY
+   chunking [write_file] produces (accounts-per-chunk and resources-per-chunk budgets >= 1, accounts whose
+   resources span several chunks through records with ExpectingMoreEntries, the chunk that is filled
+   exactly, KV / online chunks), by induction over the chunk list: the concatenated records form a
+   "good stream" (never ends inside an account), the accessor's state is carried across sections, the
+   hashes are a permutation of the unchunked ones.  [C16_tamper_evidence_write_file] combines it with
+   [C16_accepted_binds_state].  The model's writer itself is compared with the real writer (chunk
+   boundaries, flags) on every generated file. *)
 From Coq Require Import List NArith ZArith Bool.
 Import ListNotations.
 From Verif.model Require Import MerkleTrie MerkleTrieSpec CatchpointHash CatchpointFile CatchpointFileCheck.
-From Verif.proofs Require Import CatchpointFileProofs CatchpointFileRefute CatchpointFileWrite.
+From Verif.proofs Require Import CatchpointFileProofs CatchpointFileRefute CatchpointFileWrite CatchpointFileChunks.
 Open Scope N_scope.
 
 (* invariant of the repaired accessor after ANY section list: addresses are staged once; every
@@ -89,22 +91,67 @@ Theorem C16_accepted_binds_state :
 Proof. exact accepted_binds_state. Qed.
 Print Assumptions C16_accepted_binds_state.
 
-(* RESTORE (partial: the unchunked file; both accessors): for every well-formed world -- distinct
-   addresses, distinct creatable indexes per account, Total* counters matching the resources,
-   distinct KV keys / online rows -- whose entries have pairwise different leaves of one length
-   (no C15 collision), the accessor accepts the world's file under the producer's label (root of
-   the canonical trie of the leaf set, C14 / C17) and adopts EXACTLY that world *)
-Theorem C16_restore_flat_file_partial :
+(* RESTORE, both accessors: for every well-formed world -- distinct addresses, distinct creatable
+   indexes per account, Total* counters matching the resources, distinct KV keys / online rows --
+   whose entries have pairwise different leaves of one length (no C15 collision), for every file
+   version V6..V8 and EVERY account / resource budget >= 1, the accessor accepts the writer's file
+   under the producer's label (root of the canonical trie of the leaf set, C14 / C17) and adopts
+   EXACTLY that world: accounts, resources, boxes, online tables, totals *)
+Theorem C16_restore_write_file :
   forall (fixed : bool) (H : bytes -> bytes) (tot_of : bytes -> counts) (flags_of : bytes -> bool * bool * bool * bool)
          (leafA : bytes -> bytes -> bytes) (leafR : bytes -> N -> bytes -> bytes) (leafK : bytes -> bytes -> bytes)
-         (n : nat) (ver balr blkr : N) (digest : bytes) (w : world),
-  (129 <=? ver) && (ver <=? 131) = true -> wf_world tot_of flags_of w ->
+         (n : nat) (ver : N) (B R : nat) (balr blkr : N) (digest : bytes) (w : world),
+  (129 <=? ver) && (ver <=? 131) = true -> (1 <= B)%nat -> (1 <= R)%nat ->
+  wf_world tot_of flags_of w ->
+  (ver = 131 \/ (w_oa w = [] /\ w_orp w = [])) ->
   NoDup (flat_hashes leafA leafR leafK w) ->
   (forall h, In h (flat_hashes leafA leafR leafK w) -> length h = n /\ bytes_ok h) ->
-  exists t, restore fixed H tot_of flags_of leafA leafR leafK (flat_file ver balr blkr w)
+  exists t, restore fixed H tot_of flags_of leafA leafR leafK (write_file ver B R balr blkr w)
                     (producer_label H leafA leafR leafK ver blkr digest w) blkr digest = Accepted (w, t).
-Proof. exact restore_flat_file. Qed.
-Print Assumptions C16_restore_flat_file_partial.
+Proof. exact restore_write_file. Qed.
+Print Assumptions C16_restore_write_file.
+
+(* what the writer's chunking guarantees the accessor: whatever the budgets, the records of the
+   balances chunks, concatenated, are per account a chain of records with the account's data, all
+   but the last with ExpectingMoreEntries, partitioning its resources in order (in particular the
+   stream never ends inside an account), and no chunk is empty *)
+Theorem C16_writer_chunks_well_formed :
+  forall (B R : nat), (1 <= R)%nat -> forall fuel (l : list acct) cur nacc nres,
+  (length l + total_res l < fuel)%nat -> (nres < R)%nat ->
+  exists s, concat (chunk_accounts fuel B R l cur nacc nres) = rev cur ++ s /\ good_stream l s /\
+            Forall (fun c => c <> []) (chunk_accounts fuel B R l cur nacc nres).
+Proof. exact chunk_accounts_stream. Qed.
+Print Assumptions C16_writer_chunks_well_formed.
+
+(* TAMPER EVIDENCE against the writer's own file, whatever its chunking (repaired accessor) *)
+Theorem C16_tamper_evidence_write_file :
+  forall (H : bytes -> bytes) (tot_of : bytes -> counts) (flags_of : bytes -> bool * bool * bool * bool)
+         (leafA : bytes -> bytes -> bytes) (leafR : bytes -> N -> bytes -> bytes) (leafK : bytes -> bytes -> bytes),
+  (forall a1 t1 a2 t2 d, a_blkround a1 = a_blkround a2 -> staged_label H a1 t1 d = staged_label H a2 t2 d ->
+     root_hash H (t_root t1) = root_hash H (t_root t2) /\ a_totals a1 = a_totals a2) ->
+  (forall hs1 hs2 t1 t2, build_trie hs1 t_empty = Some t1 -> build_trie hs2 t_empty = Some t2 ->
+     root_hash H (t_root t1) = root_hash H (t_root t2) -> forall x, In x hs1 <-> In x hs2) ->
+  (forall a1 e1 a2 e2, leafA a1 e1 = leafA a2 e2 -> a1 = a2 /\ e1 = e2) ->
+  (forall a1 c1 e1 a2 c2 e2, leafR a1 c1 e1 = leafR a2 c2 e2 -> a1 = a2 /\ c1 = c2 /\ e1 = e2) ->
+  (forall k1 v1 k2 v2, leafK k1 v1 = leafK k2 v2 -> k1 ++ v1 = k2 ++ v2) ->
+  (forall a e a' c e', leafA a e <> leafR a' c e') ->
+  (forall a e k v, leafA a e <> leafK k v) ->
+  (forall a c e k v, leafR a c e <> leafK k v) ->
+  forall (n : nat) (ver : N) (B R : nat) (balr blkr : N) (digest : bytes) (w : world) (f : list section) (w' : world) (t' : tstate),
+  (129 <=? ver) && (ver <=? 131) = true -> (1 <= B)%nat -> (1 <= R)%nat ->
+  wf_world tot_of flags_of w -> (ver = 131 \/ (w_oa w = [] /\ w_orp w = [])) ->
+  NoDup (flat_hashes leafA leafR leafK w) ->
+  (forall h, In h (flat_hashes leafA leafR leafK w) -> length h = n /\ bytes_ok h) ->
+  restore true H tot_of flags_of leafA leafR leafK f (producer_label H leafA leafR leafK ver blkr digest w) blkr digest
+    = Accepted (w', t') ->
+  exists a, process_all true tot_of flags_of leafA leafR leafK f a_init = Some a /\ w' = world_of a /\
+    a_totals a = w_totals w /\
+    (forall ad e, In (ad, e) (a_accts a) <-> In (ad, e) (rows_of (w_accts w))) /\
+    (forall ad c e, In (ad, c, e) (a_res a) <-> In (ad, c, e) (res_of (w_accts w))) /\
+    (forall k v, In (k, v) (a_kvs a) -> exists k' v', In (k', v') (w_kvs w) /\ k ++ v = k' ++ v') /\
+    (forall k v, In (k, v) (w_kvs w) -> exists k' v', In (k', v') (a_kvs a) /\ k ++ v = k' ++ v').
+Proof. exact tamper_evidence_write_file. Qed.
+Print Assumptions C16_tamper_evidence_write_file.
 
 (* the accessor AS IT WAS: a tampered file is accepted under the producer's label and restores
    other account data, with the very same trie (injective builders, H = identity: no collision,
